@@ -131,6 +131,7 @@ fn any_offset(size: usize) -> usize {
 // --------------------------------------------------------------------------------- get_value
 
 // FN: SliceRef::subslice, SliceRef::get_value, Element::read, ElementRef::load
+// ALSO: C12
 // ALSO: C02
 #[kani::proof]
 #[kani::unwind(9)]
@@ -239,6 +240,7 @@ fn c15_set_value_atomic() {
 /// A store followed by a load of the same kind at the same place returns the stored element
 /// bit for bit (NaN payloads included), plain and atomic.
 // FN: SliceRefMut::set_value, SliceRef::get_value
+// ALSO: C12
 #[kani::proof]
 #[kani::unwind(9)]
 fn c15_set_then_get_roundtrip() {
